@@ -387,6 +387,9 @@ inline std::vector<uint8_t> decode_stream(vf::Ctx& c, ZSTD_DCtx* dctx, const Enc
     ZSTD_DCtx_reset(dctx, ZSTD_reset_session_and_parameters);
     if (er.magicless) ZSTD_DCtx_setParameter(dctx, ZSTD_d_format, ZSTD_f_zstd1_magicless);
     ZSTD_DCtx_setParameter(dctx, ZSTD_d_windowLogMax, 31);
+    // decoder-side parameters that must not change what is decoded nor where a frame ends
+    if (t.chance(25)) { ZSTD_DCtx_setParameter(dctx, ZSTD_d_forceIgnoreChecksum, 1); c.label("dec_param:forceIgnoreChecksum"); }
+    if (t.chance(10)) { ZSTD_DCtx_setParameter(dctx, ZSTD_d_disableHuffmanAssembly, 1); c.label("dec_param:disableHuffmanAssembly"); }
     ZBUFF_DCtx* zb = nullptr;
     vf::Buf* stable = nullptr;
     size_t stablePos = 0;
